@@ -2,13 +2,14 @@
 """tools/seed_save.py <worktree> <mutant> <property> <demo pkg dir> <detected_by> <note>  -> /verif/seeded/<property>-<mutant>/"""
 import sys, os, shutil, json, re
 wt, m, prop, pkg, det, note = sys.argv[1:7]
+saveas = sys.argv[7] if len(sys.argv) > 7 else m
 src = os.path.join(wt, "mutants", m)
-dst = os.path.join("/verif/seeded", "%s-%s" % (prop, m))
+dst = os.path.join("/verif/seeded", "%s-%s" % (prop, saveas))
 os.makedirs(dst, exist_ok=True)
 for f in ("patch.diff", "demo_test.go", "README.md"):
     shutil.copy(os.path.join(src, f), os.path.join(dst, f if f != "demo_test.go" else "demo_test.go.txt"))
 readme = open(os.path.join(src, "README.md")).read()
-meta = {"property": prop, "mutant": m, "demo": "demo_test.go.txt (place as <repo>/%s/zz_demo_test.go)" % pkg,
+meta = {"property": prop, "mutant": saveas, "demo": "demo_test.go.txt (place as <repo>/%s/zz_demo_test.go)" % pkg,
   "breaks": readme.strip().split("\n\n")[0][:600],
   "confirmed_by_me": "tools/seed_eval.sh: patch applied in a scratch worktree: go build ok, existing suite passes (TestAsyncClient excluded as in the baseline), demo fails with the patch and passes without it",
   "check_result": det, "note": note,
